@@ -1131,15 +1131,7 @@ func propC07Ranges(c *Ctx) {
 		}, "block look-up"},
 	} {
 		fn := w.Fn("jrpc2", spec.fn)
-		var pStart, pLimit *ssa.Parameter
-		for _, p := range fn.Params {
-			switch p.Name() {
-			case "start":
-				pStart = p
-			case "limit":
-				pLimit = p
-			}
-		}
+		pStart, pLimit, baseStack := requestedRange(w, fn)
 		reg := NewRegion(fn) // the test and the attach step may live in a helper of the routine (groupLogs)
 		// the range carried as a small value with accessors (want := span{start, limit}; want.first(), want.end()):
 		// seen through the accessors and the literal (unfold.go)
@@ -1160,8 +1152,8 @@ func propC07Ranges(c *Ctx) {
 			}
 			return ok && b.Op == token.ADD && ((isC(u.with(b.X), pStart) && isC(u.with(b.Y), pLimit)) || (isC(u.with(b.Y), pStart) && isC(u.with(b.X), pLimit)))
 		}
-		is := func(v ssa.Value, p *ssa.Parameter) bool { return isC(cv(v), p) }
-		isUpper := func(v ssa.Value) bool { return isUpperC(cv(v)) }
+		is := func(v ssa.Value, p *ssa.Parameter) bool { return isC(cval{v: v, stack: baseStack}, p) }
+		isUpper := func(v ssa.Value) bool { return isUpperC(cval{v: v, stack: baseStack}) }
 		// rangeHelper: call is `contains(n)` of such a value: true only when start <= n and n < start+limit
 		rangeHelper := func(call *ssa.Call, isNum func(ssa.Value) bool) bool {
 			h := staticCallee(call)
@@ -1178,7 +1170,7 @@ func propC07Ranges(c *Ctx) {
 				return false
 			}
 			np := h.Params[ni]
-			st := []*ssa.Call{call}
+			st := append(append([]*ssa.Call{}, baseStack...), call)
 			isN := func(v ssa.Value) bool { return stripNum(v) == ssa.Value(np) }
 			var lo, hi []Edge
 			var loCmp, hiCmp []ssa.Value
